@@ -412,6 +412,56 @@ def r9_paired_query_args(idx, r):
         raise AnalysisError(f"only {n} typeSpec-forwarding calls found")
 
 
+def r10_container_copies(idx, r):
+    """A class of the reactor package that IS a dict or list and defines its own __deepcopy__ must copy its elements too:
+    copying only __dict__ yields an empty container, so a deep copy of the reactor loses what the container registered
+    (the ex-core structures: a tracked discharge on the copy then drops the assembly instead of pooling it).
+    setChildren must not empty the container before it has consumed its argument (which may iterate over that container)."""
+    n = 0
+    for c in idx.all_classes():
+        if not c.module.name.startswith("armi.reactor") or ".tests" in c.module.name:
+            continue
+        if not any(b in ("dict", "list", "collections.OrderedDict", "OrderedDict") for b in c.base_exprs):
+            continue
+        dc = c.methods.get("__deepcopy__")
+        if dc is None:
+            continue
+        n += 1
+        touches = False
+        for x in ast.walk(dc.node):
+            if isinstance(x, ast.Call) and isinstance(x.func, ast.Attribute) and dotted(x.func.value) == "self" and x.func.attr in ("items", "values", "keys", "copy", "__iter__", "__reduce_ex__", "__reduce__"):
+                touches = True
+            if isinstance(x, (ast.For, ast.comprehension)) and dotted(x.iter) == "self":
+                touches = True
+            if isinstance(x, ast.Call) and dotted(x.func) in ("dict", "list", "dict.items", "list.__iter__") and x.args and dotted(x.args[0]) == "self":
+                touches = True
+        r.require(touches, f"{c.name}.__deepcopy__:copies-elements", dc,
+                  msg=f"{c.name} is a {[b for b in c.base_exprs if b in ('dict', 'list', 'OrderedDict')][0]} but its __deepcopy__ never reads its own elements (only instance attributes are copied): "
+                      "the deep copy is an empty container")
+    comp = idx.cls(COMPOSITE) if "COMPOSITE" in globals() else idx.cls("armi.reactor.composites.Composite")
+    sc = comp.methods.get("setChildren") if comp is not None else None
+    if sc is None:
+        raise AnchorMissing("Composite.setChildren")
+    p = [q for q in sc.params() if q != "self"][0]
+
+    def ev(nd):
+        if isinstance(nd, ast.Call) and dotted(nd.func) in ("self.removeAll", "self._children.clear"):
+            return ["cleared"]
+        if isinstance(nd, ast.Call) and dotted(nd.func) in ("list", "tuple") and nd.args and dotted(nd.args[0]) == p:
+            return ["materialised"]
+        return []
+    from ..flow import Flow
+    fl = Flow(sc.node, ev).run()
+    clears = [x for x in ast.walk(sc.node) if ev(x) == ["cleared"]]
+    uses = [x for x in ast.walk(sc.node) if isinstance(x, ast.For) and dotted(x.iter) == p]
+    ok = bool(clears) and all((fl.state_before(x) or {}).get("materialised", (0, 0))[0] >= 1 for x in clears) or not uses
+    r.require(ok, "setChildren:argument-consumed-before-clearing", sc, node=clears[0] if clears else sc.node,
+              msg=f"setChildren empties the container and only then iterates `{p}`: when `{p}` is an iterator over this container's own children "
+                  "(reversed(c), iter(c), a generator) nothing is left to iterate and all children are lost")
+    if n < 1:
+        raise AnalysisError("no dict/list subclass with __deepcopy__ found in armi.reactor (ExcoreCollection expected)")
+
+
 def run(idx, chk):
     chk.explanation = (
         "C01: who may write Composite._children / .parent (frozen owners), pairing of parent/list/locator effects on every path of "
@@ -438,3 +488,5 @@ def run(idx, chk):
                  necessary="'every object has at most one parent'")
     chk.run_rule("R01.9", "a query that takes typeSpec and exact hands both on together, on every path (lambdas included)", lambda r: r9_paired_query_args(idx, r), floor=12,
                  necessary="queries by flags return exactly the objects a naive walk with the same arguments returns")
+    chk.run_rule("R01.10", "container classes that define __deepcopy__ copy their elements; setChildren consumes its argument before clearing", lambda r: r10_container_copies(idx, r), floor=2,
+                 necessary="copying a subtree yields an independent, complete tree; structural edits never lose children")
